@@ -3,8 +3,13 @@ Modelica text and computes the expected flat model directly, by recursive instan
 Modelica specification (chapter 5 lookup, chapter 7 inheritance and modification) - independent of
 pymoca.tree.
 
+Class kinds are printed as given (model, package, connector, type); a connector component is instantiated like
+any other component (its own instance is not a flat variable), `flow` is an ordinary prefix that is kept at
+every depth.  Connect clauses are not part of the spec language (C09 owns connection sets).
+
 Expressions are nested tuples: ("n", 3) number, ("v", "a.x") variable path relative to the class the
 expression is written in, ("+", e1, e2), ("-", e1, e2), ("*", e1, e2), ("neg", e), ("der", ("v", "x")).
+A path may end in a literal subscript, ("v", "b.level[2]"): printed as is, it denotes that scalar element.
 """
 ELEMENTARY = ("Real", "Integer", "Boolean")
 
